@@ -1314,6 +1314,9 @@ fn pressure_cycles(rec: &mut Rec, steps: u32) {
             return;
         }
         let used = jit.cache_used();
+        if std::env::var("GB_PRESS_DEBUG").is_ok() {
+            eprintln!("step {} pc {:#06x} bank {} used {:#x} -> {:#x} (+{})", step, pc0, bank, used_before, used, used as i64 - used_before as i64);
+        }
         if used < used_before {
             restarts += 1;
         }
